@@ -32,7 +32,7 @@ var (
 	genTgtVals   = []string{"_blank", "_top", "", "_BLANK", "frame1"}
 	genStyleVals = []string{"color: red", "color:red;background:url(javascript:alert(1))", "COLOR: RED; font-size: 12px", "text-align:center;;", "width: expression(alert(1))",
 		"color: \\72 ed", "color: r\\65D", "color: b\\6Cue", "-webkit-transition: none", "color: red !important", "background-image: url('http://e.com/a;b.png')", "/* c */ color: blue", "color", ":", "color: r\\65 d", "font-family: \\110000 x",
-		"color: r\\0 ed", "color: \\d800 x", "color: \\5c 72 ed", "color: \\", "color: \\ffffff"}
+		"color: r\\0 ed", "color: \\d800 x", "color: \\5c 72 ed", "color: \\", "color: \\ffffff", " ", "   ", ";", " ; ", "color: red;  "}
 	genSandboxVals = []string{"allow-forms", "allow-scripts allow-forms", "allow-forms  allow-forms", "bogus", "", "ALLOW-FORMS", "allow-same-origin\tallow-popups bogus"}
 )
 
